@@ -336,7 +336,10 @@ func TestC19(t *testing.T) {
 						if err != nil {
 							return nil, err
 						}
-						f.Path = name + []string{".txt", ".tar.gz"}[gg.Var%2]
+						// one extension, as the generator's own duplicate test allows for (it compares names
+						// with the text after the last dot removed; "x.tar.gz" would defeat it, which is the
+						// child generator's doing, not the library's)
+						f.Path = name + []string{".txt", ".md"}[gg.Var%2]
 						return &f, nil
 					}))
 				case "GenerateDirectory", "GenerateDirectory-sharded":
